@@ -23,7 +23,7 @@
    semantic actions / constructors that run during and after parsing. *)
 From Coq Require Import List String Ascii ZArith Bool Lia.
 From MPV Require Import Model.Wire.
-From MPV Require Gen.Tables Gen.Grammar Gen.LRTables.
+From MPV Require Gen.Tables Gen.Grammar Gen.LRTables Gen.Lexer.
 Import ListNotations.
 Open Scope string_scope.
 
@@ -763,6 +763,235 @@ Definition parser_of (sh : shape) : string :=
   | ShSdef0 _ => "param_only"
   end.
 
+(* ------------------------------------------------------------------ 3b. the lexers
+   The token rules are the generated regular-expression trees of Gen/Lexer.v (Python's own parse of the sources with
+   the lexers' flags).  [re_match] is a backtracking matcher with Python's semantics for the constructs that occur:
+   alternatives left to right, greedy repetition, negative look-ahead, IGNORECASE.  [lex] is sly.lex.Lexer.tokenize:
+   at every position the rules are tried in order and the first that matches wins (not the longest); a character no
+   rule matches is a literal token if it is in [literals], else a LexError.  The actions of tokens.py are written
+   out by hand in [lex_action] (keyword / particle / surface-type tables are the generated ones). *)
+Import Gen.Lexer.
+Definition code (a : ascii) : N := N_of_ascii a.
+Definition lower_code (n : N) : N := if (65 <=? n)%N && (n <=? 90)%N then (n + 32)%N else n.
+Definition upper_code (n : N) : N := if (97 <=? n)%N && (n <=? 122)%N then (n - 32)%N else n.
+Definition is_space_code (n : N) : bool := ((9 <=? n)%N && (n <=? 13)%N) || (n =? 32)%N.
+Definition is_digit_code (n : N) : bool := (48 <=? n)%N && (n <=? 57)%N.
+Definition item_has (it : set_item) (n : N) : bool :=
+  match it with
+  | SChar c => (lower_code c =? lower_code n)%N
+  | SRange lo hi => ((lo <=? lower_code n)%N && (lower_code n <=? hi)%N)
+                    || ((lo <=? upper_code n)%N && (upper_code n <=? hi)%N)
+  | SDigit => is_digit_code n | SSpace => is_space_code n
+  | SNotDigit => negb (is_digit_code n) | SNotSpace => negb (is_space_code n)
+  end.
+
+(* The text is a list of character codes, carried together with its length [n] (binary), so that "did the
+   repetition make progress" is a comparison of two numbers.
+   [re_match fuel r s n k]: match r at the front of s, then continue with k on the rest; None = no match *)
+Definition cstr := (list N * N)%type.
+Fixpoint re_match (fuel : nat) (r : re) (s : list N) (n : N) (k : list N -> N -> option cstr) : option cstr :=
+  match fuel with
+  | O => None
+  | S f =>
+    match r with
+    | REps => k s n
+    | RLit c => match s with a :: t => if (lower_code c =? lower_code a)%N then k t (N.pred n) else None | [] => None end
+    | RSet neg items =>
+        match s with
+        | a :: t => if Bool.eqb (existsb (fun it => item_has it a) items) (negb neg) then k t (N.pred n) else None
+        | [] => None
+        end
+    | RAny => match s with a :: t => if (a =? 10)%N then None else k t (N.pred n) | [] => None end
+    | RSeq a b => re_match f a s n (fun s' n' => re_match f b s' n' k)
+    | RAlt a b => match re_match f a s n k with Some x => Some x | None => re_match f b s n k end
+    | RRep mn mx body =>
+        let more :=
+          match mx with
+          | Some 0%N => None
+          | _ => re_match f body s n (fun s' n' =>
+                   if (n' <? n)%N
+                   then re_match f (RRep (N.pred mn) (option_map N.pred mx) body) s' n' k else None)
+          end in
+        match more with
+        | Some x => Some x
+        | None => if (mn =? 0)%N then k s n else None
+        end
+    | RNotAhead a => match re_match f a s n (fun s' n' => Some (s', n')) with Some _ => None | None => k s n end
+    | RBegin => k s n
+    | REnd => match s with [] => k s n | _ => None end
+    end
+  end.
+
+Definition re_prefix (fuel : nat) (r : re) (s : list N) (n : N) : option cstr :=
+  re_match fuel r s n (fun s' n' => Some (s', n')).
+Definition re_full (fuel : nat) (r : re) (s : list N) (n : N) : bool :=
+  match re_match fuel r s n (fun s' n' => match s' with [] => Some (s', n') | _ => None end) with
+  | Some _ => true | None => false end.
+
+(* the first rule, in rule order, that matches a non-empty prefix *)
+Fixpoint first_rule (fuel : nat) (rules : list (string * re)) (s : list N) (n : N) : option (string * cstr) :=
+  match rules with
+  | [] => None
+  | (name, r) :: rest =>
+      match re_prefix fuel r s n with
+      | Some (s', n') => if (n' <? n)%N then Some (name, (s', n')) else first_rule fuel rest s n
+      | None => first_rule fuel rest s n
+      end
+  end.
+
+Fixpoint take_codes (k : N) (fuel : nat) (s : list N) : list N :=
+  match fuel with
+  | O => []
+  | S f => if (k =? 0)%N then [] else match s with a :: t => a :: take_codes (N.pred k) f t | [] => [] end
+  end.
+Definition string_of_codes (l : list N) : string := string_of_list_ascii (map ascii_of_N l).
+Definition codes_of_string (s : string) : list N := map code (list_ascii_of_string s).
+Definition lower_string (s : string) : string := string_of_codes (map lower_code (codes_of_string s)).
+
+Inductive lexer_kind := LCell | LData | LSurface.
+Definition rules_of (L : lexer_kind) : list (string * re) :=
+  match L with LCell => CellLexer_token_rules | LData => DataLexer_token_rules | LSurface => SurfaceLexer_token_rules end.
+Definition literals_of (L : lexer_kind) : list string :=
+  match L with LCell => CellLexer_token_literals | LData => DataLexer_token_literals
+             | LSurface => SurfaceLexer_token_literals end.
+
+(* MCNP_Lexer._parse_shortcut: the first of _EXPRESSIONS that matches the whole value *)
+Fixpoint shortcut_type (fuel : nat) (es : list (string * re)) (v : list N) (n : N) : option string :=
+  match es with
+  | [] => None
+  | (name, r) :: rest => if re_full fuel r v n then Some name else shortcut_type fuel rest v n
+  end.
+
+(* is the number zero?  (fortran_float(value) == 0: no digit 1-9 in the mantissa) *)
+Fixpoint mantissa_zero (first : bool) (s : list N) : bool :=
+  match s with
+  | [] => true
+  | n :: t =>
+      if (lower_code n =? 101)%N then true
+      else if negb first && ((n =? 43)%N || (n =? 45)%N) then true
+      else if (49 <=? n)%N && (n <=? 57)%N then false
+      else mantissa_zero false t
+  end.
+
+Inductive lex_result := LexOk (ts : list token) | LexError (pos : N) (why : string).
+
+(* the action of one token: (type, how many characters of the match are kept) or an error.
+   [prev]: the character before the token (None at the start), [col]: MCNP_Lexer.find_column *)
+Definition after_colon (prev : option N) : bool :=
+  match prev with Some a => (a =? 58)%N || (a =? 44)%N | None => false end.
+Definition lex_action (fuel : nat) (L : lexer_kind) (name : string) (v : list N) (n : N) (prev : option N) (col : N)
+  : (string * N) + string :=
+  let word := string_of_codes (map lower_code v) in
+  if String.eqb name "COMMENT" then
+    if after_colon prev then inl ("PARTICLE", 1%N)
+    else if (5 <? col)%N then inl ("TEXT", n) else inl ("COMMENT", n)
+  else if String.eqb name "SOURCE_COMMENT" || String.eqb name "TALLY_COMMENT" then
+    if (col <=? 5)%N then inl (name, n) else inr "ValueError: Comment not allowed here"
+  else if String.eqb name "NUMBER_WORD" then
+    match shortcut_type fuel shortcut_expressions v n with
+    | Some t => inl ("NUM_" ++ t, n)
+    | None => inl ("NUMBER_WORD", n)
+    end
+  else if String.eqb name "NUMBER" then
+    inl ((if mantissa_zero true v then "NULL" else "NUMBER"), n)
+  else if String.eqb name "TEXT" then
+    let base := match shortcut_type fuel shortcut_expressions v n with
+                | Some t => t
+                | None => if mem_str word Gen.Tables.keywords then "KEYWORD" else "TEXT"
+                end in
+    match L with
+    | LSurface => inl ((if mem_str word Gen.Tables.surface_types then "SURFACE_TYPE" else base), n)
+    | _ =>
+        if mem_str word Gen.Tables.keywords && negb (after_colon prev && mem_str word Gen.Tables.particles)
+        then inl ("KEYWORD", n)
+        else if mem_str word Gen.Tables.particles then inl ("PARTICLE", n)
+        else inl (base, n)
+    end
+  else inl (name, n).
+
+(* after the characters [v]: are we still on the first line, and how far into the line *)
+Fixpoint advance (v : list N) (first_line : bool) (off : N) : bool * N :=
+  match v with
+  | [] => (first_line, off)
+  | a :: t => if (a =? 10)%N then advance t false 0%N else advance t first_line (N.succ off)
+  end.
+
+(* [lex_loop]: text still to lex with its length, position, previous character, (first line?, offset in the line) *)
+Fixpoint lex_loop (L : lexer_kind) (mfuel : nat) (fuel : nat) (s : list N) (n : N) (pos : N) (prev : option N)
+                  (first_line : bool) (off : N) (acc : list token) : lex_result :=
+  match fuel with
+  | O => LexError pos "fuel"
+  | S f =>
+    match s with
+    | [] => LexOk (rev acc)
+    | a0 :: _ =>
+      let col := if first_line then off else N.succ off in
+      let emit (ty : string) (keep : N) :=
+        let v := take_codes keep mfuel s in
+        let rest := skipn (N.to_nat keep) s in
+        let (fl, off') := advance v first_line off in
+        lex_loop L mfuel f rest (n - keep)%N (pos + keep)%N (Some (List.last v a0)) fl off'
+                 ((ty, string_of_codes v) :: acc) in
+      match first_rule mfuel (rules_of L) s n with
+      | Some (name, (_, n')) =>
+          let len := (n - n')%N in
+          match lex_action mfuel L name (take_codes len mfuel s) len prev col with
+          | inl (ty, keep) => emit ty keep
+          | inr why => LexError pos why
+          end
+      | None =>
+          let lit := string_of_codes [a0] in
+          if mem_str lit (literals_of L) then emit lit 1%N else LexError pos "LexError: Illegal character"
+      end
+    end
+  end.
+
+Definition lex_text (L : lexer_kind) (text : string) : lex_result :=
+  let s := codes_of_string text in
+  let len := List.length s in
+  lex_loop L (40 * len + 400) (S len) s (N.of_nat len) 0%N None true 0%N [].
+
+(* Input.tokenize: the text is the lines joined by line breaks plus a final line break; the line breaks that end
+   the last token are cut off and an empty last token is dropped *)
+Definition strip_trailing_nl (s : string) : string :=
+  string_of_codes (rev ((fix go (l : list N) : list N :=
+     match l with a :: t => if (a =? 10)%N then go t else l | [] => [] end)
+     (rev (codes_of_string s)))).
+Definition tokenize (L : lexer_kind) (text : string) : lex_result :=
+  match lex_text L (text ++ nl) with
+  | LexOk ts =>
+      match rev ts with
+      | (ty, v) :: before =>
+          let v' := strip_trailing_nl v in
+          LexOk (rev (match v' with EmptyString => before | _ => (ty, v') :: before end))
+      | [] => LexOk []
+      end
+  | e => e
+  end.
+(* _ClassifierInput.tokenize: up to (not including) the first SPACE after the first token that is neither a
+   comment nor a space *)
+Fixpoint classifier_cut (in_lead : bool) (ts : list token) : list token :=
+  match ts with
+  | [] => []
+  | t :: r =>
+      if in_lead then
+        t :: classifier_cut (String.eqb (fst t) "COMMENT" || String.eqb (fst t) "SPACE") r
+      else if String.eqb (fst t) "SPACE" then [] else t :: classifier_cut false r
+  end.
+
+(* text -> tokens -> verdict of the automaton: the whole syntactic front end of Cell(Input) / surface_builder(Input) /
+   parse_data(Input) inside the model (the semantic actions and constructors are not) *)
+Inductive verdict := VAccept | VReject (pos : nat) (class : string) | VLexError (why : string) | VOther.
+Definition verdict_of_text (L : lexer_kind) (T : lr_table) (text : string) : verdict :=
+  match tokenize L text with
+  | LexOk ts => match lr_run T (classes ts) with
+                | LRAccept => VAccept
+                | LRReject pos _ c => VReject pos c
+                | _ => VOther
+                end
+  | LexError _ why => VLexError why
+  end.
+
 (* ------------------------------------------------------------------ 4. wire entry *)
 Inductive val :=
 | VR (r : real) | VP (p : pad) | VOP (p : option pad) | VF (f : fact) | VT (t : term) | VE (e : expr)
@@ -988,7 +1217,9 @@ Definition lr_of (parser : string) (ts : list string) : string :=
          of the rendered tokens: A accept, R<pos>/<state>/<class> reject, F fuel, T<why> inconsistent table)
      "lr <parser> <hexclass,hexclass,...>" -> the verdict of that parser's LR driver
      "dispatch <0|1> <prefix,prefix,..> <key>" -> the claiming prefixes
-     "wordclass <hexword>" -> the class ParticleLexer.TEXT gives the word *)
+     "wordclass <hexword>" -> the class ParticleLexer.TEXT gives the word
+     "lex <C|D|S|K> <hextext>" -> "ok tok tok ..." | "error <pos> <hexwhy>": Input.tokenize with the cell / data /
+        surface lexer (K: _ClassifierInput with the data lexer) *)
 Definition run_CoreGrammar (req : string) : string :=
   match words req with
   | "gen" :: c :: prog =>
@@ -1006,5 +1237,11 @@ Definition run_CoreGrammar (req : string) : string :=
   | ["dispatch"; m; pfx; key] =>
       show_list hex_encode (dispatch (String.eqb m "1") (parse_strs pfx) (hex_decode key))
   | ["wordclass"; w] => word_class (hex_decode w)
+  | ["lex"; l; txt] =>
+      let L := if String.eqb l "C" then LCell else if String.eqb l "S" then LSurface else LData in
+      match tokenize L (hex_decode txt) with
+      | LexOk ts => "ok " ++ join " " (map show_tok (if String.eqb l "K" then classifier_cut true ts else ts))
+      | LexError pos why => "error " ++ show_Z (Z.of_N pos) ++ " " ++ hex_encode why
+      end
   | _ => "error:request"
   end.
